@@ -501,6 +501,70 @@ def cli_case(jaq, args, expect, limit_bytes=64 << 20):
     return "done", written[0], out, err
 
 
+INCREMENTAL = [
+    # (args, bytes fed while stdin stays OPEN, output that must arrive before anything more is fed)
+    (["-c", "."], b"1 \n", b"1\n"),
+    (["-n", "-c", "inputs"], b"1 \n", b"1\n"),
+    (["-c", "[., input]"], b"1 \n2 \n", b"[1,2]\n"),
+    (["-n", "-c", "first(inputs)"], b"7 \n", b"7\n"),
+    (["-c", "--to", "yaml", "."], b"1 \n", b"---\n1\n...\n"),
+    (["-r", "."], b"\"a\" \n", b"a\n"),
+]
+
+
+def incremental_case(jaq, args, feed, expect):
+    """The command line as incremental consumer: stdin stays open; output k must be delivered
+    while jaq waits for input k+1. Verdict on logical state, not on time: 'violated' only if the
+    process sits in read(0, ...) (waiting for more input) several polls in a row while the
+    expected output has not arrived; a plain timeout is inconclusive."""
+    import select
+    p = subprocess.Popen([jaq] + args, stdin=subprocess.PIPE, stdout=subprocess.PIPE, stderr=subprocess.PIPE,
+                         env={"PATH": os.environ.get("PATH", ""), "HOME": "/tmp", "TZ": "UTC", "NO_COLOR": "1"})
+    try:
+        p.stdin.write(feed)
+        p.stdin.flush()
+        got = b""
+        blocked = 0
+        t0 = time.time()
+        while time.time() - t0 < 90:
+            r, _, _ = select.select([p.stdout], [], [], 0.25)
+            if r:
+                chunk = os.read(p.stdout.fileno(), 4096)
+                if not chunk:
+                    break
+                got += chunk
+                if got.startswith(expect) or not expect.startswith(got):
+                    break
+                continue
+            if p.poll() is not None:
+                break
+            try:
+                sc = open("/proc/%d/syscall" % p.pid).read().split()
+                # x86-64: syscall 0 = read, first argument = fd
+                if sc and sc[0] == "0" and len(sc) > 1 and int(sc[1], 16) == 0:
+                    blocked += 1
+                else:
+                    blocked = 0
+            except (OSError, ValueError):
+                blocked = 0
+            if blocked >= 8:
+                return "withheld", got
+        if got.startswith(expect):
+            return "delivered", got
+        if blocked >= 8:
+            return "withheld", got
+        return ("wrong" if got and not expect.startswith(got) else "watchdog"), got
+    finally:
+        try:
+            p.stdin.close()
+        except Exception:
+            pass
+        try:
+            p.wait(timeout=20)
+        except Exception:
+            p.kill()
+
+
 def main():
     run = Run("C03")
     nprod = run.size(500, 40000)
@@ -547,6 +611,20 @@ def main():
                                                      "stderr": se.decode("utf-8", "replace")[:200]})
         else:
             distinct.add("cli:" + args[-1])
+    for args, feed, expect in INCREMENTAL:
+        status, got = incremental_case(jaq, args, feed, expect)
+        cli["incremental: " + " ".join(args)] = {"status": status}
+        evals += 1
+        if status == "withheld":
+            run.violation("cli:output-withheld-while-waiting-for-input:" + " ".join(args),
+                          {"args": args, "fed": feed.decode(), "expected_before_more_input": expect.decode(),
+                           "received": got.decode("utf-8", "replace"), "state": "process blocked in read(0) with stdin open"})
+        elif status == "wrong":
+            run.violation("cli:incremental-output:" + " ".join(args), {"args": args, "expected": expect.decode(), "received": got.decode("utf-8", "replace")})
+        elif status == "watchdog":
+            run.inconc("cli-watchdog")
+        else:
+            distinct.add("cli-incremental:" + " ".join(args))
     run.finish({
         "evaluations": evals, "distinct_nontrivial": len(distinct),
         "rule": "stream producers with effect markers at generated positions x consumer x cut k x arming mode; distinct = "
